@@ -1,6 +1,6 @@
 (* Props/C09.v - KILL QUERY spares the connection; KILL CONNECTION ends exactly the target. *)
 From Coq Require Import List Arith NArith Lia Bool.
-From MM Require Import Lib.Bytes Model.Conn Model.Resp Proofs.ConnInv Proofs.C10Proofs Proofs.KillProofs Proofs.RespProofs Gen.FactsConn Gen.FactsRoute Gen.FactsControl.
+From MM Require Import Lib.Bytes Model.Conn Model.Resp Proofs.ConnInv Proofs.C10Proofs Proofs.KillProofs Proofs.KillAbort Proofs.RespProofs Gen.FactsConn Gen.FactsRoute Gen.FactsControl.
 Import ListNotations.
 Open Scope N_scope.
 
@@ -26,6 +26,43 @@ Proof. exact (kq_after_kc_ignored B BATCH). Qed.
 
 Theorem c09_kill_query_from_own_callback_is_noop : forall s, step B BATCH s (EvKillSelf KQ) = (s, []).
 Proof. exact (kq_self_ignored B BATCH). Qed.
+
+(* in EVERY state where a statement executes inside a handler frame (whatever the plan, the suspension point, the statement
+   table, the buffer): the KILL QUERY produces exactly one write - what was still buffered followed by ONE ERR "session was
+   killed" under the next sequence number -, does not close the session, clears the executing flag, and the connection is
+   back at its prompt (kill cleared, sequence reset) or, if the socket does not accept data, waits for exactly that *)
+Theorem c09_kill_query_aborts_with_one_err : forall s w k f ic,
+  ctl_ s = Susp w k f ic -> is_handler f = true -> executing s = true -> kill s = None -> dead s = false -> eof s = false -> inq s = [] ->
+  let r := step B BATCH s (EvKill KQ) in
+  snd r = [OWrite (map fst (buf s) ++ [(seq s, PErr E_SESSION_WAS_KILLED)])] /\
+  closes (fst r) = closes s /\ executing (fst r) = false /\ buf (fst r) = [] /\
+  (if paused s then ctl_ (fst r) = Susp WDrain [] (FHandlerErr true) None /\ kill (fst r) = Some KQ
+   else ctl_ (fst r) = Susp WRead [] FRead None /\ kill (fst r) = None /\ seq (fst r) = 0).
+Proof. exact (kq_aborts_statement B BATCH). Qed.
+
+(* ... and when the socket accepts data again the connection is at its prompt, nothing more is written *)
+Theorem c09_kill_query_abort_resumes : forall s,
+  ctl_ s = Susp WDrain [] (FHandlerErr true) None -> eof s = false -> inq s = [] ->
+  let r := step B BATCH s EvResume in
+  snd r = [] /\ ctl_ (fst r) = Susp WRead [] FRead None /\ kill (fst r) = None /\ seq (fst r) = 0 /\ closes (fst r) = closes s /\
+  buf (fst r) = buf s.
+Proof. exact (kq_abort_resumes B BATCH). Qed.
+
+(* in every REACHABLE state - after any list of events from a fresh connection, kills, faults and disconnects included - a
+   KILL QUERY either changes nothing or finds the task suspended inside a handler frame with a statement executing (the case
+   of the theorem above): it never enters the `except` clauses that end the connection *)
+Theorem c09_kill_query_reachable : forall hs evs,
+  let s := fold_left (fun s e => fst (step B BATCH s e)) evs (fst (boot B BATCH hs)) in
+  step B BATCH s (EvKill KQ) = (s, []) \/
+  exists w k f ic, ctl_ s = Susp w k f ic /\ is_handler f = true /\ executing s = true.
+Proof. exact (kq_reachable B BATCH). Qed.
+
+(* the hypotheses are met: a connection whose COM_QUERY waits for the application *)
+Example c09_abort_nonvacuous :
+  let s := fst (session B BATCH 50 [EvHandshake true true; EvDecide ASuccess; EvApp OVoid; EvPayload CQuery]) in
+  ctl_ s = Susp (WApp SQuery) [MCont QText] FHandler None /\ executing s = true /\ kill s = None /\ dead s = false /\
+  eof s = false /\ inq s = [].
+Proof. vm_compute. repeat split; reflexivity. Qed.
 
 (* a kill for a connection that has ended changes nothing *)
 Theorem c09_kill_finished_connection : forall s e, ctl_ s = Done -> step B BATCH s e = (s, []).
